@@ -1,4 +1,352 @@
-import HydroVerif.Model.C14
+/-
+C14 — property theorems for `c_var2h` / `dutils.var2h`.
+Model: `HydroVerif/Model/C14.lean`; vocabulary and loop invariant: `Lemmas/C14.lean`.
+
+Reading guide.  `obs` is the list of observations `(epoch second, value or NaN)`, `pairs obs` its
+observation intervals, period `i` is `[perS P hstart i, perE P hstart i)` in whole seconds.
+`contrib c S E a b` is the exact integral over `[S, E]` of the affine piece through `a` and `b`
+(`trapArea`, shown below to be Mathlib's interval integral) — or, for rainfall, the share of the
+increment `b.2` that falls in `[S, E]` (times `P`).  `invalid c a b` is the kernel's validity test
+(NaN or value below `-eps` at either end, or longer than `maxgapsec`).
+All statements hold for every ordered field (`ℝ`, `ℚ`, …), every series length and every number of periods.
+-/
+import HydroVerif.Lemmas.C14
+import Mathlib.Analysis.SpecialFunctions.Integrals.Basic
+
 namespace HydroVerif.C14
-theorem placeholder : origin 0 = 3600 := by decide
+
+section field
+set_option linter.unusedSectionVars false
+set_option linter.unusedSimpArgs false
+variable {α : Type} [Field α] [LinearOrder α] [IsStrictOrderedRing α]
+
+/-! ### the kernel -/
+
+/-- **No error, right size.** On a non-decreasing series of at least two observations starting at or
+before the origin, the kernel succeeds (in particular the two states in which the C code would index
+outside its arrays never arise) and writes exactly `nvalh - 1` values. -/
+theorem kernel_total (c : Cfg α) (hc : CfgOK c) (hstart nvalh : Int) (a b : Obs α) (rest : List (Obs α))
+    (hs : Sorted (a :: b :: rest)) (ha : a.1 ≤ hstart) :
+    ∃ out, kernel c hstart nvalh (a :: b :: rest) = .ok out ∧ out.length = (nvalh - 1).toNat := by
+  obtain ⟨out, h1, h2, _⟩ := kernel_spec c hc hstart nvalh a b rest hs ha
+  exact ⟨out, h1, h2⟩
+
+/-- **Value.** Every non-missing value, times the period, is the sum over all observation intervals of
+the exact integral of the affine piece over the part of the interval inside the period
+(rainfall: of the prorated increments, times `P`). -/
+theorem value_is_period_integral (c : Cfg α) (hc : CfgOK c) (hstart nvalh : Int) (a b : Obs α)
+    (rest : List (Obs α)) (hs : Sorted (a :: b :: rest)) (ha : a.1 ≤ hstart)
+    (out : List (Option α)) (hk : kernel c hstart nvalh (a :: b :: rest) = .ok out)
+    (i : Nat) (h : α) (hi : out[i]? = some (some h)) :
+    h * (c.P : α) =
+      ((pairs (a :: b :: rest)).map fun p => contrib c (perS c.P hstart i) (perE c.P hstart i) p.1 p.2).sum := by
+  obtain ⟨out', h1, _, h3⟩ := kernel_spec c hc hstart nvalh a b rest hs ha
+  rw [hk] at h1; cases h1
+  have := h3 i (some h) hi
+  simp only [PeriodOK] at this
+  rw [this.1, psum_eq_contrib c hc.eps_pos hc.eps_lt]
+
+/-- **Non-missing ⇒ covered and valid.** A value is returned only for a period that ends at or before
+the last observation and all of whose overlapping intervals (`t_a < E`, `S < t_b`) are valid. -/
+theorem nonmissing_covered_and_valid (c : Cfg α) (hc : CfgOK c) (hstart nvalh : Int) (a b : Obs α)
+    (rest : List (Obs α)) (hs : Sorted (a :: b :: rest)) (ha : a.1 ≤ hstart)
+    (out : List (Option α)) (hk : kernel c hstart nvalh (a :: b :: rest) = .ok out)
+    (i : Nat) (h : α) (hi : out[i]? = some (some h)) :
+    perE c.P hstart i ≤ lastTime (a :: b :: rest) ∧
+      ∀ p ∈ pairs (a :: b :: rest), p.1.1 < perE c.P hstart i → perS c.P hstart i < p.2.1 →
+        invalid c p.1 p.2 = false := by
+  obtain ⟨out', h1, _, h3⟩ := kernel_spec c hc hstart nvalh a b rest hs ha
+  rw [hk] at h1; cases h1
+  have := h3 i (some h) hi
+  simp only [PeriodOK] at this
+  exact this.2
+
+/-- **Missing ⇒ a cause.** A missing value has a reason the property admits: the period extends past the
+last observation, or an invalid interval overlaps or touches it (`t_a < E`, `S ≤ t_b`). -/
+theorem missing_has_cause (c : Cfg α) (hc : CfgOK c) (hstart nvalh : Int) (a b : Obs α)
+    (rest : List (Obs α)) (hs : Sorted (a :: b :: rest)) (ha : a.1 ≤ hstart)
+    (out : List (Option α)) (hk : kernel c hstart nvalh (a :: b :: rest) = .ok out)
+    (i : Nat) (hi : out[i]? = some none) :
+    lastTime (a :: b :: rest) < perE c.P hstart i ∨
+      ∃ p ∈ pairs (a :: b :: rest), p.1.1 < perE c.P hstart i ∧ perS c.P hstart i ≤ p.2.1 ∧
+        invalid c p.1 p.2 = true := by
+  obtain ⟨out', h1, _, h3⟩ := kernel_spec c hc hstart nvalh a b rest hs ha
+  rw [hk] at h1; cases h1
+  have := h3 i none hi
+  simpa only [PeriodOK] using this
+
+/-- **Missing exactly when.** For a period inside the data on whose start no invalid interval merely
+ends (the "touching" case the property leaves open), the value is missing if and only if an invalid
+interval overlaps the period. -/
+theorem missing_iff_invalid_overlap (c : Cfg α) (hc : CfgOK c) (hstart nvalh : Int) (a b : Obs α)
+    (rest : List (Obs α)) (hs : Sorted (a :: b :: rest)) (ha : a.1 ≤ hstart)
+    (out : List (Option α)) (hk : kernel c hstart nvalh (a :: b :: rest) = .ok out)
+    (i : Nat) (o : Option α) (hi : out[i]? = some o)
+    (hcov : perE c.P hstart i ≤ lastTime (a :: b :: rest))
+    (htouch : ∀ p ∈ pairs (a :: b :: rest), invalid c p.1 p.2 = true → p.2.1 ≠ perS c.P hstart i) :
+    o = none ↔ ∃ p ∈ pairs (a :: b :: rest), p.1.1 < perE c.P hstart i ∧ perS c.P hstart i < p.2.1 ∧
+        invalid c p.1 p.2 = true := by
+  obtain ⟨out', h1, _, h3⟩ := kernel_spec c hc hstart nvalh a b rest hs ha
+  rw [hk] at h1; cases h1
+  have hok := h3 i o hi
+  cases o with
+  | none =>
+    simp only [PeriodOK] at hok
+    simp only [true_iff]
+    rcases hok with hlt | ⟨p, hp, h1, h2, h3⟩
+    · omega
+    · exact ⟨p, hp, h1, lt_of_le_of_ne h2 (Ne.symm (htouch p hp h3)), h3⟩
+  | some h =>
+    simp only [PeriodOK] at hok
+    simp only [reduceCtorEq, false_iff, not_exists, not_and]
+    intro p hp h1 h2 h3
+    rw [hok.2.2 p hp h1 h2] at h3
+    exact absurd h3 (by simp)
+
+/-- **Conservation.** Over a run of `m` consecutive non-missing periods the values add up (times `P`) to
+the contributions over the whole span `[S_i, S_(i+m)]`: the time-integral of the series is conserved. -/
+theorem conservation (c : Cfg α) (hc : CfgOK c) (hstart nvalh : Int) (a b : Obs α)
+    (rest : List (Obs α)) (hs : Sorted (a :: b :: rest)) (ha : a.1 ≤ hstart)
+    (out : List (Option α)) (hk : kernel c hstart nvalh (a :: b :: rest) = .ok out)
+    (i m : Nat) (v : Nat → α) (hv : ∀ k < m, out[i + k]? = some (some (v k))) :
+    ((List.range m).map v).sum * (c.P : α) =
+      ((pairs (a :: b :: rest)).map fun p => contrib c (perS c.P hstart i) (perS c.P hstart (i + m)) p.1 p.2).sum := by
+  induction m with
+  | zero =>
+    simp only [List.range_zero, List.map_nil, List.sum_nil, zero_mul, Nat.add_zero]
+    symm
+    apply List.sum_eq_zero
+    intro x hx
+    obtain ⟨p, _, rfl⟩ := List.mem_map.mp hx
+    have : ¬ (ovLo (perS c.P hstart i) p.1 < ovHi (perS c.P hstart i) p.2) := by
+      have := Sorted.pair_le hs p (by assumption)
+      unfold ovLo ovHi; omega
+    simp [contrib, this]
+  | succ m ih =>
+    have ih' := ih (fun k hk' => hv k (Nat.lt_succ_of_lt hk'))
+    have hlast := value_is_period_integral c hc hstart nvalh a b rest hs ha out hk (i + m) (v m)
+      (hv m (Nat.lt_succ_self m))
+    have hP := hc.P_pos
+    have hle1 : perS c.P hstart i ≤ perS c.P hstart (i + m) := by
+      simp only [perS]; push_cast; nlinarith
+    have hle2 : perS c.P hstart (i + m) ≤ perE c.P hstart (i + m) := by
+      simp only [perS, perE]; omega
+    rw [List.range_succ, List.map_append, List.sum_append, add_mul, ih']
+    simp only [List.map_cons, List.map_nil, List.sum_cons, List.sum_nil, add_zero]
+    rw [hlast, show i + (m + 1) = (i + m) + 1 by omega, perS_succ]
+    exact contribSum_add c _ _ _ hle1 hle2 _ hs
+
+/-- **Rainfall.** With the rainfall flag a non-missing value is the period total of the increments spread
+uniformly over their intervals. -/
+theorem rainfall_value_is_prorated_total (c : Cfg α) (hc : CfgOK c) (hr : c.rain = 1) (hstart nvalh : Int)
+    (a b : Obs α) (rest : List (Obs α)) (hs : Sorted (a :: b :: rest)) (ha : a.1 ≤ hstart)
+    (out : List (Option α)) (hk : kernel c hstart nvalh (a :: b :: rest) = .ok out)
+    (i : Nat) (h : α) (hi : out[i]? = some (some h)) :
+    h = ((pairs (a :: b :: rest)).map fun p =>
+        if ovLo (perS c.P hstart i) p.1 < ovHi (perE c.P hstart i) p.2 then
+          match p.1.2, p.2.2 with
+          | some _, some v2 => rainShare p.1 p.2 v2 (ovLo (perS c.P hstart i) p.1) (ovHi (perE c.P hstart i) p.2)
+          | _, _ => 0
+        else 0).sum := by
+  have hval := value_is_period_integral c hc hstart nvalh a b rest hs ha out hk i h hi
+  have hPne : (c.P : α) ≠ 0 := by exact_mod_cast hc.P_pos.ne'
+  have : ∀ l : List (Obs α × Obs α),
+      (l.map fun p => contrib c (perS c.P hstart i) (perE c.P hstart i) p.1 p.2).sum =
+      (l.map fun p =>
+        if ovLo (perS c.P hstart i) p.1 < ovHi (perE c.P hstart i) p.2 then
+          match p.1.2, p.2.2 with
+          | some _, some v2 => rainShare p.1 p.2 v2 (ovLo (perS c.P hstart i) p.1) (ovHi (perE c.P hstart i) p.2)
+          | _, _ => 0
+        else 0).sum * (c.P : α) := by
+    intro l
+    induction l with
+    | nil => simp
+    | cons p l ih =>
+      simp only [List.map_cons, List.sum_cons, ih, add_mul]
+      congr 1
+      unfold contrib
+      split_ifs with h1
+      · rcases p with ⟨⟨ta, va⟩, ⟨tb, vb⟩⟩
+        cases va <;> cases vb <;> simp [hr]
+      · simp
+  rw [this] at hval
+  exact mul_right_cancel₀ hPne hval
+
+/-- **The start scan** leaves `varindex` on the interval that contains the origin:
+`varsec[varindex] ≤ hstart`, and the next stamp is later than `hstart` unless it is the last one. -/
+theorem startScan_position (hstart : Int) (a b : Obs α) (rest : List (Obs α)) (ha : a.1 ≤ hstart) :
+    ∃ suf, startScan hstart (a :: b :: rest) = some suf ∧
+      (∃ pre, a :: b :: rest = pre ++ suf.1 :: suf.2) ∧ suf.1.1 ≤ hstart ∧
+      ((∃ x, suf.2 = [x]) ∨ ∀ x ∈ suf.2.head?, hstart < x.1) := by
+  refine ⟨scanFrom hstart a (b :: rest), by simp [startScan, ha], ?_⟩
+  have key : ∀ (l : List (Obs α)) (x : Obs α) (pre : List (Obs α)), a :: b :: rest = pre ++ x :: l → l ≠ [] →
+      x.1 ≤ hstart →
+      (∃ pre, a :: b :: rest = pre ++ (scanFrom hstart x l).1 :: (scanFrom hstart x l).2) ∧
+      (scanFrom hstart x l).1.1 ≤ hstart ∧
+      ((∃ y, (scanFrom hstart x l).2 = [y]) ∨ ∀ y ∈ (scanFrom hstart x l).2.head?, hstart < y.1) := by
+    intro l
+    induction l with
+    | nil => intro x pre _ hne; exact absurd rfl hne
+    | cons y r ih =>
+      intro x pre hpre _ hx
+      cases r with
+      | nil => exact ⟨⟨pre, hpre⟩, hx, Or.inl ⟨y, rfl⟩⟩
+      | cons z r' =>
+        by_cases hy : y.1 ≤ hstart
+        · have : scanFrom hstart x (y :: z :: r') = scanFrom hstart y (z :: r') := by
+            rw [scanFrom]; simp [hy]
+          rw [this]
+          exact ih y (pre ++ [x]) (by rw [hpre]; simp) (by simp) hy
+        · have : scanFrom hstart x (y :: z :: r') = (x, y :: z :: r') := by
+            rw [scanFrom]; simp [hy]
+          rw [this]
+          exact ⟨⟨pre, hpre⟩, hx, Or.inr (by simp; omega)⟩
+  exact key (b :: rest) a [] rfl (by simp) ha
+
+/-- a series whose first stamp is later than the origin, or with fewer than two observations, is rejected -/
+theorem kernel_rejects_late_start (c : Cfg α) (hc : CfgOK c) (hstart nvalh : Int) (a : Obs α)
+    (rest : List (Obs α)) (ha : hstart < a.1) :
+    kernel c hstart nvalh (a :: rest) = .error .startBeforeData := by
+  have h1 : ¬ (c.rain < 0 ∨ 1 < c.rain) := by rcases hc.rain with h | h <;> omega
+  have h2 : ¬ (c.P ≠ 1800 ∧ c.P ≠ 3600) := by rcases hc.period with h | h <;> omega
+  cases rest with
+  | nil => simp [kernel, h1, h2, startScan]
+  | cons b r =>
+    have : ¬ a.1 ≤ hstart := by omega
+    simp [kernel, h1, h2, startScan, this]
+
+/-- the affine piece is the interpolant: it passes through both observations -/
+theorem lin_left (t1 t2 v1 v2 : α) : lin t1 t2 v1 v2 t1 = v1 := by simp [lin]
+
+theorem lin_right (t1 t2 v1 v2 : α) (h : t1 ≠ t2) : lin t1 t2 v1 v2 t2 = v2 := by
+  have : t2 - t1 ≠ 0 := sub_ne_zero.mpr (Ne.symm h)
+  unfold lin; field_simp; ring
+
+/-! ### the wrapper's origin and size -/
+
+/-- the origin is the first whole hour strictly after the first stamp -/
+theorem origin_spec (first : Int) :
+    origin first % 3600 = 0 ∧ first < origin first ∧ origin first ≤ first + 3600 := by
+  unfold origin; omega
+
+/-- hourly output: every period the kernel computes ends at or before the last stamp, so none is
+missing for lack of data -/
+theorem hourly_periods_within_data (first last : Int) (h : first ≤ last) (i : Nat)
+    (hi : (i : Int) < nvalhOf first last 3600 - 1) :
+    perE 3600 (origin first) i ≤ last := by
+  unfold nvalhOf at hi
+  rw [Int.tdiv_eq_ediv_of_nonneg (by omega)] at hi
+  have := origin_spec first
+  unfold perE; omega
+
+/-- half-hourly output: a computed period can extend past the last stamp, by less than one period -/
+theorem halfhourly_periods_overhang (first last : Int) (h : first ≤ last) (i : Nat)
+    (hi : (i : Int) < nvalhOf first last 1800 - 1) :
+    perE 1800 (origin first) i ≤ last + 1800 := by
+  unfold nvalhOf at hi
+  rw [Int.tdiv_eq_ediv_of_nonneg (by omega)] at hi
+  have := origin_spec first
+  unfold perE; omega
+
+/-- **The wrapper.** For admissible arguments and a non-decreasing series of at least two observations,
+`var2h` returns the origin, and `nvalh` values: the kernel's values for periods `0 .. nvalh-2`, each as
+the property requires, followed by one missing value. -/
+theorem wrapper_spec (c : Cfg α) (hc : CfgOK c) (hgap : 3600 ≤ c.maxgap) (a b : Obs α) (rest : List (Obs α))
+    (hs : Sorted (a :: b :: rest)) (hn : 1 ≤ nvalhOf a.1 (lastTime (a :: b :: rest)) c.P) :
+    ∃ out, wrapper c (a :: b :: rest) = .ok (origin a.1, out ++ [none]) ∧
+      ((out.length : Int) = nvalhOf a.1 (lastTime (a :: b :: rest)) c.P - 1) ∧
+      ∀ i o, out[i]? = some o →
+        PeriodOK c (a :: b :: rest) (perS c.P (origin a.1) i) (perE c.P (origin a.1) i) o := by
+  have hlastq : ∀ (l : List (Obs α)) (x : Obs α), (x :: l).getLast?.map Prod.fst = some (lastTime (x :: l)) := by
+    intro l
+    induction l with
+    | nil => intro x; simp
+    | cons y r ih => intro x; rw [List.getLast?_cons_cons, ih y, lastTime_cons_cons]
+  obtain ⟨lst, hlst⟩ : ∃ lst, (a :: b :: rest).getLast? = some lst := by
+    cases h : (a :: b :: rest).getLast? with
+    | none => simp at h
+    | some x => exact ⟨x, rfl⟩
+  have hl1 : lst.1 = lastTime (a :: b :: rest) := by
+    have := hlastq (b :: rest) a
+    rw [hlst] at this; simpa using this
+  have horg := origin_spec a.1
+  obtain ⟨out, hk, hlen, hall⟩ := kernel_spec c hc (origin a.1)
+    (nvalhOf a.1 (lastTime (a :: b :: rest)) c.P) a b rest hs (by omega)
+  refine ⟨out, ?_, by rw [hlen]; omega, hall⟩
+  have h2 : ¬ (c.P ≠ 1800 ∧ c.P ≠ 3600) := by rcases hc.period with h | h <;> omega
+  have h3 : ¬ c.maxgap < 3600 := by omega
+  have h4 : ¬ nvalhOf a.1 (lastTime (a :: b :: rest)) c.P < 0 := by omega
+  have h5 : ¬ nvalhOf a.1 (lastTime (a :: b :: rest)) c.P = 0 := by omega
+  simp only [wrapper, h2, h3, if_false, List.head?_cons, hlst, hl1, h4, hk, h5]
+
+end field
+
+/-! ### the trapezoid is the integral (ℝ) -/
+
+open intervalIntegral in
+/-- the trapezoid area the kernel adds is Mathlib's interval integral of the affine piece -/
+theorem trapArea_eq_integral (a b : Obs ℝ) (v1 v2 : ℝ) (lo hi : Int) :
+    trapArea a b v1 v2 lo hi = ∫ x in (lo : ℝ)..(hi : ℝ), lin (a.1 : ℝ) (b.1 : ℝ) v1 v2 x := by
+  unfold trapArea lin
+  generalize (v2 - v1) / ((b.1 : ℝ) - (a.1 : ℝ)) = sl
+  rw [intervalIntegral.integral_add, intervalIntegral.integral_const_mul, intervalIntegral.integral_sub,
+    integral_id, intervalIntegral.integral_const, intervalIntegral.integral_const]
+  · simp only [smul_eq_mul]; ring
+  all_goals
+    first
+    | exact continuous_id.intervalIntegrable _ _
+    | exact continuous_const.intervalIntegrable _ _
+    | exact (Continuous.intervalIntegrable (by continuity) _ _)
+
+/-- **Value, as an integral.** Over the reals, without the rainfall flag: a non-missing value times the
+period is the sum, over the observation intervals that overlap the period, of the interval integral of
+the linear interpolant between `max(t_a, S)` and `min(t_b, E)`. -/
+theorem value_is_integral_of_interpolant (c : Cfg ℝ) (hc : CfgOK c) (hr : c.rain = 0) (hstart nvalh : Int)
+    (a b : Obs ℝ) (rest : List (Obs ℝ)) (hs : Sorted (a :: b :: rest)) (ha : a.1 ≤ hstart)
+    (out : List (Option ℝ)) (hk : kernel c hstart nvalh (a :: b :: rest) = .ok out)
+    (i : Nat) (h : ℝ) (hi : out[i]? = some (some h)) :
+    h * (c.P : ℝ) = ((pairs (a :: b :: rest)).map fun p =>
+        if ovLo (perS c.P hstart i) p.1 < ovHi (perE c.P hstart i) p.2 then
+          match p.1.2, p.2.2 with
+          | some v1, some v2 =>
+            ∫ x in ((ovLo (perS c.P hstart i) p.1 : Int) : ℝ)..((ovHi (perE c.P hstart i) p.2 : Int) : ℝ),
+              lin (p.1.1 : ℝ) (p.2.1 : ℝ) v1 v2 x
+          | _, _ => 0
+        else 0).sum := by
+  rw [value_is_period_integral c hc hstart nvalh a b rest hs ha out hk i h hi]
+  congr 1
+  apply List.map_congr_left
+  intro p _
+  unfold contrib
+  have hr1 : ¬ c.rain = 1 := by omega
+  by_cases h1 : ovLo (perS c.P hstart i) p.1 < ovHi (perE c.P hstart i) p.2
+  · simp only [h1, if_true, hr1, if_false]
+    rcases p with ⟨⟨ta, va⟩, ⟨tb, vb⟩⟩
+    cases va <;> cases vb <;> simp [trapArea_eq_integral]
+  · simp only [h1, if_false]
+
+/-! ### the hypotheses are satisfiable -/
+
+/-- admissible arguments exist -/
+example : CfgOK (⟨1800, 0, 3600, 1 / 100000000⟩ : Cfg ℚ) :=
+  ⟨Or.inl rfl, Or.inl rfl, by norm_num, by norm_num⟩
+
+/-- a non-decreasing series with a duplicate stamp, a stamp on a period boundary and a NaN -/
+example : Sorted ([(1, some 10), (601, some 4), (3600, some 4), (3600, some 7), (5400, none), (9000, some 1)] :
+    List (Obs ℚ)) := by
+  simp [Sorted]
+
+/-- the defect input of the property: a constant series stamped every 10 minutes from 00:00:01 to 01:10:01,
+half-hourly output from 01:00; the period 01:00–01:30 extends past the last stamp and is missing -/
+example : kernel (⟨1800, 0, 432000, 1 / 100000000⟩ : Cfg ℚ) 3600 2
+    [(1, some 10), (601, some 10), (1201, some 10), (1801, some 10), (2401, some 10), (3001, some 10),
+     (3601, some 10), (4201, some 10)] = .ok [none] := by
+  decide +kernel
+
+/-- and a covered period gets the exact average: stamps 0, 1800, 3600, 7200 with values 0, 2, 4, 8, hourly
+output from 3600 -/
+example : kernel (⟨3600, 0, 432000, 1 / 100000000⟩ : Cfg ℚ) 3600 2
+    [(0, some 0), (1800, some 2), (3600, some 4), (7200, some 8)] = .ok [some 6] := by
+  decide +kernel
+
 end HydroVerif.C14
